@@ -104,8 +104,8 @@ def draw_scenario(cs, cfg):
         op["debug"] = [None, "enable", "disable", "enable>disable", "disable>enable", "set_true"][
             cs.weighted([6, 5, 1, 1, 1, 1], "dbg")]
         depth = cs.weighted([5, 3, 2, 1], "nest")
-        op["nest"] = [["identical", "clones", "clones_nograd", "aliased"][cs.weighted([2, 5, 1, 2], "nestkind")]
-                      for _ in range(depth)]
+        op["nest"] = [["identical", "clones", "clones_nograd", "aliased", "torch_reparam"][
+            cs.weighted([2, 5, 1, 2, 1], "nestkind")] for _ in range(depth)]
         if op["op"] == "BWD" and not sc["allow_ctx_mismatch"]:
             op["nest"] = ["identical" for _ in op["nest"]]
         subst = any(k != "identical" for k in op["nest"])
@@ -729,7 +729,22 @@ def execute(sc, plan, reference=None, collect=None):
         enter, current = nest_handle(env, fspec)
         cur = current()
         kind = op["nest"][level]
-        if kind == "identical":
+        if kind == "torch_reparam":
+            a0 = env.actors[0]
+            if isinstance(a0, torch.nn.Module) and hasattr(torch.nn.utils.stateless, "_reparametrize_module"):
+                # torch's own temporary substitution (what torch.func.functional_call does around forward):
+                # plain tensors are put directly into the module's parameter slots
+                names = [nm for nm, _ in a0.named_parameters(remove_duplicate=False)]
+                repl = {nm: p.detach().clone().requires_grad_() for nm, p in a0.named_parameters()}
+                enter = lambda new, a0=a0, repl=repl: torch.nn.utils.stateless._reparametrize_module(a0, repl)
+                cur = list(repl.values())
+                SIM.count("reach.torch_functional_call_substitution")
+                kind = "torch_reparam_active"
+            else:
+                kind = "clones"
+        if kind == "torch_reparam_active":
+            new = list(cur)
+        elif kind == "identical":
             new = list(cur)
         elif kind == "clones":
             new = [p.detach().clone().requires_grad_() for p in cur]
